@@ -220,23 +220,74 @@ func httpUpgraderRules(c *Ctx, prop string) {
 		}
 		// later stages only matter when the basic checks pass
 		late := ""
+		// A path stands for every configuration that agrees with the atoms it asked: where a
+		// selector applies (it is set and the request carries the header), the outcome has to
+		// depend on it, so the path must have asked.
+		miss := ""
 		if len(broken) == 0 {
-			for i := 1; i <= 3 && late == ""; i++ {
-				if p.Chose(fmt.Sprintf("select#%d", i)) == 2 {
+			values := func(part string) int {
+				for _, ch := range p.Choices {
+					if strings.HasPrefix(ch.Key, "values(") && strings.Contains(strings.ToLower(ch.Key), part) {
+						return ch.Opt
+					}
+				}
+				return -1
+			}
+			// applies reports how many header values the selector has to see (0: none or not set)
+			applies := func(sel, part string) int {
+				n, set := values(part), p.Chose("isnil("+sel+")")
+				switch {
+				case n == 0 || set == 1:
+					return 0
+				case set == -1:
+					miss = "the outcome of this path does not depend on whether " + sel + " is set"
+					return 0
+				case n == -1:
+					miss = sel + " is set, but the path never looks at the " + part + " header of the request"
+					return 0
+				}
+				return n
+			}
+			asked := func(key, sel string) int {
+				r := p.Chose(key)
+				if r == -1 && miss == "" {
+					miss = sel + " is set and the request carries a value for it, but it is not consulted (" + key + ")"
+				}
+				return r
+			}
+			np := applies("Protocol", "protocol")
+			for i := 1; i <= np && late == "" && miss == ""; i++ {
+				r := asked(fmt.Sprintf("select#%d", i), "Protocol")
+				if r == 2 {
 					late = errs["ErrMalformedRequest"]
+				}
+				if r == 1 {
+					break
 				}
 			}
-			for i := 1; i <= 3 && late == ""; i++ {
-				if p.Chose(fmt.Sprintf("negotiate#%d.err", i)) > 0 {
-					late = "negotiate-error"
-				}
-				if p.Chose(fmt.Sprintf("extsel#%d.ok", i)) == 0 {
-					late = errs["ErrMalformedRequest"]
+			if late == "" && miss == "" {
+				if ne := applies("Negotiate", "extensions"); ne > 0 {
+					for i := 1; i <= ne && late == "" && miss == ""; i++ {
+						if asked(fmt.Sprintf("negotiate#%d.err", i), "Negotiate") > 0 {
+							late = "negotiate-error"
+						}
+					}
+				} else if miss == "" && p.Chose("isnil(Negotiate)") != 0 {
+					ne := applies("Extension", "extensions")
+					for i := 1; i <= ne && late == "" && miss == ""; i++ {
+						if asked(fmt.Sprintf("extsel#%d.ok", i), "Extension") == 0 {
+							late = errs["ErrMalformedRequest"]
+						}
+					}
 				}
 			}
 		}
 		wu, we := p.Calls("WriteUpgrade"), p.Calls("WriteError")
 		desc := fmt.Sprintf("[HTTP/%s.%s %s]", fold.Show(maj), fold.Show(min), atomSummaryAll(p))
+		if miss != "" {
+			problems = append(problems, miss+" "+desc)
+			continue
+		}
 		if len(broken) == 0 && late == "" {
 			succ++
 			if len(wu) != 1 || len(we) != 0 {
@@ -264,6 +315,9 @@ func httpUpgraderRules(c *Ctx, prop string) {
 			continue
 		}
 		if why := statusCodeProblem(p, we[0].Args[2]); why != "" {
+			problems = append(problems, why+" "+desc)
+		}
+		for _, why := range rejectionProblems(p, gotErr, we[0]) {
 			problems = append(problems, why+" "+desc)
 		}
 		if !(broken[gotErr] || gotErr == late) || c.errName(we[0].Args[1]) != gotErr {
